@@ -85,11 +85,12 @@ Definition fstep (o : fopts) (forks : list N) (tasks : list task) (g : gstate) (
   | ENTRY =>
       let '(fs', shown, past) := entry_f o fs (t_sc ts1 - 1) (r_addr r) in
       let depth := if pend then t_sc ts1 - 1 else t_dd ts1 in
-      let ts2 := if past && inb (r_addr r) forks then set_fork ts1 (depth + 1) else ts1 in
+      let '(ts2, sj) := if past then fixup_entry (mkcfg false forks) r depth ts1 (g_sjd g1, g_sjc g1)
+                        else (ts1, (g_sjd g1, g_sjc g1)) in
       if shown
       then (Some (mkev true i depth (r_addr r) 0 (r_time r)),
-            tset g1 i (set_dd ts2 (depth + 1)), fsupd F i (unpend fs'))  (* fstack_update(ENTRY) *)
-      else (None, tset g1 i ts2, fsupd F i fs')
+            tset (set_sj g1 sj) i (update_entry r depth ts2 sj), fsupd F i (unpend fs'))  (* fstack_update(ENTRY) *)
+      else (None, tset (set_sj g1 sj) i ts2, fsupd F i fs')
   | EXIT =>
       let x := ffget o (f_frames fs) (t_sc ts1) in
       let fs' := exit_f o fs (t_sc ts1) in
